@@ -28,6 +28,10 @@ CLAIMS = {
    text="PPG.tla specifies the driver against a simulated instrument in integer instrument units (channel normalisation/clipping, clamp-and-warn per limit, nearest PRBS order, IEEE-488.2 block splitting at consecutive addresses, paged pattern memory); PPGModel.tla explores every setter x 7 request classes per limit x 12 channel selections (scalar and per-channel lists) and all histories of <= 2 (3) set_data/get_data operations on a small memory (Chunk=4, MaxMem=12) with EveryCmdInRange, ChunkingCorrect and RoundTrip; Sync.tla proves that exact cross-correlation finds every delay for every unique-peak pattern of <= 5 slots. Every TLC state is executed on the real PPG3204 attached to a fake VISA session (instance constants shadowed to the model's), the SCPI strings are parsed and the whole log is judged by the stateful monitor PPGTrace.tla, which keeps the instrument memory; random histories with the real constants (1024-bit blocks, 2^21 memory, data lengths to 10^4 across block boundaries, requests over several decades) and SYNC runs (PRBS7/9, every delay class, noise up to 10 %) are judged by the same monitor; dry-run mode (printed commands) included.",
    note="trusted: TLC; the fake instrument (documented IEEE-488.2 block format) and the SCPI parser of the harness; real hardware is out of scope; start addresses are taken inside 1..2^21 (the statement lists no limit for them)",
    technique="TLA+ state machine + TLC exhaustive model checking + replay of every TLC state on the driver + stateful TLC trace monitor"),
+ "C18": dict(level="model_checking",
+   text="Quantiser.tla states shortest_int as a relation (a pair of order statistics lag=floor(p*len/100) apart of minimal width - any minimiser) and ADC as code within half a step of the ideal value for in-range samples / end code outside, relative to SOME minimal 99.99 % interval, all in exact integer arithmetic; QuantiserModel.tla explores every sorted data set of <= 6 (7) values from 0..4 (all tie patterns) x 9 percentages x n in 1..3 with every admissible interval and rounding choice. The real functions are run on the same exhaustive domain (shuffled, three power-of-two scales incl. 2^-36) and on Gaussian/uniform/sinusoidal/quantised records up to 2^15+3 (2^17 thorough) samples with injected outliers, n up to 12, both otype values, ndarray/signal/signal+noise inputs; every call is validated by TLC (QuantiserTrace), which itself evaluates minimality over the whole sorted record.",
+   note="trusted: TLC, JSON transport; data are integer-valued times a power of two so that doubles are exact; record lengths where p*len/100 is an exact integer with p=99.99 are avoided (float floor ambiguity); constant records (hi=lo) are outside the statement",
+   technique="TLA+ relational spec + TLC exhaustive model checking + TLC trace validation"),
 }
 
 
